@@ -474,39 +474,6 @@ Proof.
   end.
 Qed.
 
-(* does the optimal entry point reach the score matrix?  (mirrors the dispatch of fuzzy_impl and the
-   slab guard of fuzzy_optimal; independent of prefer_prefix) *)
-Definition dp_window (cfg : config) (hs ns : ustr) : option (N * N) :=
-  let h := cs hs in let n := cs ns in
-  if lenN h <? lenN n then None else
-  match n with
-  | [] => None
-  | _ :: nrest =>
-    if lenN n =? lenN h then None else
-    match nrest with
-    | [] => None
-    | _ =>
-      match rp hs, rp ns with
-      | Ascii, Ascii =>
-        match prefilter_ascii cfg h n false with
-        | None => None
-        | Some (start, _, end_) => if lenN n =? end_ - start then None else Some (start, end_)
-        end
-      | Ascii, Unicode => None
-      | Unicode, _ =>
-        match prefilter_non_ascii cfg h n false with
-        | None => None
-        | Some (start, end_) => if lenN n =? end_ - start then None else Some (start, end_)
-        end
-      end
-    end
-  end.
-Definition dp_taken (cfg : config) (hs ns : ustr) : bool :=
-  match dp_window cfg hs ns with
-  | Some (start, end_) => slab_alloc_ok (rp hs) (lenN (sliceN start end_ (cs hs))) (lenN (cs ns))
-  | None => false
-  end.
-
 Lemma fuzzy_impl_srel cfg hs ns row : bonus_bounded cfg ->
   (length (cs ns) <= 2)%nat \/ dp_taken cfg hs ns = false ->
   srel (fuzzy_impl (with_prefix cfg false) hs ns row) (fuzzy_impl (with_prefix cfg true) hs ns row).
